@@ -9,6 +9,7 @@ against the monitor cells, in particular `nest p c` to any depth) and every `PBo
 -/
 import Asynkit.Lemmas.C07
 import Asynkit.Lemmas.C07Nest
+import Asynkit.Model.MonitorOld
 
 namespace Asynkit.C07
 open Asynkit.Proto (Val Exc Resume)
@@ -287,11 +288,17 @@ theorem reentry_refused {c : SBody} (m : MonId) (op : Op) (sys : Sys c) (h : sys
      (op = .aclose ∧ SCoro.isDone sys.coro = true ∧ (callStart m op sys).2 = .returned 0)) := by
   cases op <;> cases hd : SCoro.isDone sys.coro <;> simp [callStart, asendStart, h, hd, Op.finish]
 
-/-- `Monitor.oob` on a monitor that is not active raises RuntimeError inside the body and
-    touches nothing: the body just carries on with its `refused` continuation. -/
+/-- `Monitor.oob` on a monitor that is not active (state 0) raises RuntimeError inside the body and
+    touches nothing: the body just carries on with its `refused` continuation.  A left-over -1 counts
+    as active (the monitor is driving the coroutine). -/
 theorem oob_refused_when_inactive {σ : Type} (m : MonId) (d : Val) (s : σ) (refused : Unit → Step σ)
-    (env : Env) (h : env m ≠ 1) :
+    (env : Env) (h : env m = 0) :
     resolve (.oob m d s refused) env = resolve (refused ()) env := by
+  simp [resolve, h]
+
+theorem oob_accepted_when_active {σ : Type} (m : MonId) (d : Val) (s : σ) (refused : Unit → Step σ)
+    (env : Env) (h : env m ≠ 0) :
+    resolve (.oob m d s refused) env = .yield (.req m d) s (env.set m (-1)) := by
   simp [resolve, h]
 
 /-- **oob_while_closing**: (a) a coroutine that answers `aclose()` with an `oob` gets
@@ -311,7 +318,7 @@ theorem oob_while_closing (b : MBody) (m : MonId) (s : b.σ) (env : Env) (h0 : e
   have h' := congrArg (fun x : Sys (ofM b) × CallOut => (x.1, Op.finish .aclose x.2)) h
   exact hcs.trans (h'.trans (by simp [idealResume, hb, idealAfter, present, Op.finish] <;> rfl))
 
-theorem yield_while_closing {c : SBody} (m : MonId) (s : c.σ) (env : Env) (st' : CSt c.σ) (y : Val)
+theorem yield_while_closing {c : SBody} (m : MonId) (s : c.σ) (env : Env) (st' : CSt c.σ) (y : YV)
     (env' : Env) (hy : SCoro.after (c.resume s (.throw .genExit) env) = (st', .yield y, env')) :
     asendResume m (.throw .genExit) (⟨.susp s, env⟩ : Sys c)
       = (⟨st', env'.set m 0⟩, .raised (.runtime Proto.rtIgnoredGenExit)) := by
@@ -345,22 +352,30 @@ theorem nested_monitors_inner_view (p : PBody) (b : MBody) (mB : MonId) (op : Op
   rcases present b mB false (idealResume b mB cc r env) with ⟨⟨cc', env'⟩, o⟩
   cases ho : op.finish o <;> simp
 
-/-- **nested_monitors (outer view)**, for every coroutine (a `nest` to any depth in particular):
-    the driver of the outer monitor `mA` receives `OOBData y` exactly when the activation it started
-    ended in a yield of `y` with `mA`'s cell at -1, i.e. (previous theorem, `resolveI`) exactly when
-    some body below executed `mA.oob(y)`; every other yield stays a real suspension. -/
+/-- **nested_monitors (outer view)**, for every coroutine (a `nest` to any depth in particular): what the
+    relay of `mA` does with what comes out of the activation it started.  A request addressed to `mA`
+    (with its cell at -1, which `nested_monitors` shows always accompanies it) is `OOBData d`; anything
+    else — a real suspension, a request addressed to another monitor — stays a suspension, and a
+    left-over -1 is reset on the way. -/
 theorem nested_monitors_outer_view {c : SBody} (mA : MonId) (first : Resume) (sys : Sys c)
-    (h0 : sys.env mA = 0) (cs : CSt c.σ) (y : Val) (env' : Env)
+    (h0 : sys.env mA = 0) (cs : CSt c.σ) (y : YV) (env' : Env)
     (hr : SCoro.resume c sys.coro first (sys.env.set mA 1) = (cs, .yield y, env')) :
-    asendStart mA first sys =
-      if env' mA = -1 then (⟨cs, env'.set mA 0⟩, .raised (.oobData y)) else (⟨cs, env'⟩, .pending y) := by
-  simp [asendStart, h0, hr, relayAfter, relayTop]
-
-/-
-The single end-to-end statement is `nested_monitors` / `nested_monitors_resume` / `nested_monitors_tower`
-below (any depth, by `tagNest` on the nest structure).  Its hypothesis `Safe` — no GeneratorExit arrives
-from above while a parent waits in a sub-call — cannot be dropped: `stale_oob_after_close`.
--/
+    (∀ d, y = .req mA d → env' mA = -1 →
+        asendStart mA first sys = (⟨cs, env'.set mA 0⟩, .raised (.oobData d))) ∧
+    ((∀ d, y ≠ .req mA d) →
+        asendStart mA first sys = (⟨cs, if env' mA = -1 then env'.set mA 1 else env'⟩, .pending y)) := by
+  constructor
+  · intro d hy hneg
+    subst hy
+    simp [asendStart, h0, hr, relayAfter, relayTop, hneg]
+  · intro hy
+    by_cases hneg : env' mA = -1
+    · cases y with
+      | plain v => simp [asendStart, h0, hr, relayAfter, relayTop, hneg]
+      | req m' d =>
+        have hm : m' ≠ mA := fun h => hy d (by rw [h])
+        simp [asendStart, h0, hr, relayAfter, relayTop, hneg, hm]
+    · simp [asendStart, h0, hr, relayAfter, relayTop, hneg]
 
 /-! ## nested monitors, end to end, any depth -/
 
@@ -369,168 +384,182 @@ def tower : List PBody → MBody → SBody
   | [], b => ofM b
   | p :: ps, b => nest p (tower ps b)
 
-/-- side condition on a tower: a parent whose child is itself a parent never sends GeneratorExit down
-    (`aclose`/`athrow(GeneratorExit)` on a child that may be waiting in its own sub-call; see
-    `stale_oob_after_close`).  The innermost parent — the whole tower at depth 2 — is unrestricted. -/
-def TowerOk : List PBody → Prop
-  | [] => True
-  | [_] => True
-  | p :: q :: ps => (∀ s r, (p.resume s r).GEfree) ∧ TowerOk (q :: ps)
-
-/-- every tower is tagged, for every monitor -/
-def tagTower (A : MonId) (b : MBody) : (ps : List PBody) → TowerOk ps → Tag A (tower ps b)
-  | [], _ => tagLeaf A b
-  | [p], _ => tagNest (tagLeaf A b) p (fun _ _ => Or.inl (fun _ => trivial))
-  | p :: q :: ps, h => tagNest (tagTower A b (q :: ps) h.2) p (fun s r => Or.inr (h.1 s r))
+/-- every tower is tagged, for every monitor — no side condition -/
+def tagTower (A : MonId) (b : MBody) : (ps : List PBody) → Tag A (tower ps b)
+  | [] => tagLeaf A b
+  | p :: ps => tagNest (tagTower A b ps) p
 
 /-- **nested_monitors** (first activation of a call of `A`), for every coroutine with the tag property —
     by `tagTower` every tower of parents over a leaf, to any depth, each parent driving its child
-    through any monitors and everybody calling `oob` on any monitor.  With nothing in flight (`NoNeg`)
-    and `A` idle:
+    through any monitors with any of the entry points (`aclose` and `athrow(GeneratorExit)` included) and
+    everybody calling `oob` on any monitor.  With `A` idle:
     * if the activation's *source* is `some d` (syntactically: it ended because a body below executed
-      `await A.oob(d)`, `nestSrc`/`stepSrc`), the driver of `A` gets `OOBData d`, and `A` is idle;
-    * otherwise it gets exactly the coroutine's own outcome — a real suspension, or an `oob` addressed
-      to someone else, is `pending`, never OOBData from `A`'s relay;
-    * afterwards nothing is in flight again (completed) / at most the one value addressed to a monitor
-      *outside* the tower is (pending), `A`'s cell is 0 / 1, and the state is reachable again — so the
-      statement applies to the next call: each `A.oob` surfaces exactly once, in program order.
-    Applied with `A := B` and `c :=` the sub-tower, the same theorem is what a *parent* sees of the
-    monitor `B` it drives its child through (`nested_monitors_inner_view` spells that out for a leaf):
-    each driver sees exactly its own data. -/
+      `await A.oob(d)`, `nestSrc`/`stepSrc`), what comes out is the request `req A d` and the driver of
+      `A` gets `OOBData d`;
+    * otherwise it gets exactly the coroutine's own outcome — a real suspension, or a request addressed
+      to someone else, is `pending` (a -1 left over from an `oob` swallowed by a `close()` further down is
+      reset), never OOBData;
+    * afterwards `A`'s cell is 0 (completed) / 1 (suspended) and the state is reachable again, so the
+      statement applies to the next call: each accepted `A.oob` that is not swallowed by a close surfaces
+      exactly once, in program order, and nothing else ever does.
+    Applied with `A := B` and `c :=` the sub-tower it is what a *parent* sees of the monitor `B` it drives
+    its child through: each driver sees exactly its own data.
+    No hypothesis on GeneratorExit remains (before the repair e5acd69: `stale_oob_after_close`). -/
 theorem nested_monitors {c : SBody} {A : MonId} (T : Tag A c) (first : Resume) (cc : CSt c.σ) (env : Env)
-    (hok : okC T cc) (hq : Safe first ∨ quietC T cc) (hn : NoNeg env) (h0 : env A = 0) :
+    (hok : okC T cc) (h0 : env A = 0) :
     let x := SCoro.resume c cc first (env.set A 1)
     let res := asendStart A first (⟨cc, env⟩ : Sys c)
     (∀ d, coroSrc T cc first (env.set A 1) = some d →
-        x.2.1 = .yield d ∧ res = (⟨x.1, x.2.2.set A 0⟩, .raised (.oobData d))) ∧
+        x.2.1 = .yield (.req A d) ∧ res = (⟨x.1, x.2.2.set A 0⟩, .raised (.oobData d))) ∧
     (coroSrc T cc first (env.set A 1) = none →
         res = match x.2.1 with
-          | .yield y => (⟨x.1, x.2.2⟩, .pending y)
+          | .yield y => (⟨x.1, if x.2.2 A = -1 then x.2.2.set A 1 else x.2.2⟩, .pending y)
           | .ret v => (⟨x.1, x.2.2.set A 0⟩, .returned v)
           | .raise (.oobData _) => (⟨x.1, x.2.2.set A 0⟩, .raised (.runtime rtRaisedOOB))
           | .raise e => (⟨x.1, x.2.2.set A 0⟩, .raised e)) ∧
     okC T res.1.coro ∧
     (match res.2 with
-      | .pending _ => AtMostOneNeg res.1.env ∧ res.1.env A = 1
-      | _ => NoNeg res.1.env ∧ res.1.env A = 0) := by
+      | .pending _ => res.1.env A = 1
+      | _ => res.1.env A = 0) := by
   intro x res
-  have hp := coro_post T cc first (env.set A 1) hok hq (hn.set A 1 (by decide)) (by simp)
+  have hp := coro_post T cc first (env.set A 1) hok (Or.inl (by simp))
   have hres : res = asendStart A first (⟨cc, env⟩ : Sys c) := rfl
   have hx : x = SCoro.resume c cc first (env.set A 1) := rfl
   rw [← hx] at hp
   obtain ⟨cs, o, env1⟩ := x
   dsimp only at hp
-  obtain ⟨hok', hrest⟩ := hp
+  obtain ⟨hok', hA, hrest⟩ := hp
   cases o with
   | yield y =>
-    obtain ⟨hone, hA, hs1, hs2⟩ := hrest
-    cases hA with
-    | inl hA1 =>
-      have hr : res = (⟨cs, env1⟩, .pending y) := by
-        rw [hres]; simp [asendStart, h0, ← hx, relayAfter, relayTop, hA1]
-      refine ⟨fun d hd => ?_, fun _ => hr, ?_, ?_⟩
-      · rw [hs2 hA1] at hd; exact absurd hd (by simp)
+    obtain ⟨hs1, hs2⟩ := hrest
+    cases hsrc : coroSrc T cc first (env.set A 1) with
+    | some d =>
+      have hy : y = .req A d := (hs1 d).mpr hsrc
+      subst hy
+      have hneg : env1 A = -1 := hs2 d rfl
+      have hr : res = (⟨cs, env1.set A 0⟩, .raised (.oobData d)) := by
+        rw [hres]; simp [asendStart, h0, ← hx, relayAfter, relayTop, hneg]
+      refine ⟨fun d' hd' => ?_, fun h => by simp at h, ?_, ?_⟩
+      · cases hd'; exact ⟨rfl, hr⟩
       · rw [hr]; exact hok'
-      · rw [hr]; exact ⟨hone, hA1⟩
-    | inr hAm =>
-      have hr : res = (⟨cs, env1.set A 0⟩, .raised (.oobData y)) := by
-        rw [hres]; simp [asendStart, h0, ← hx, relayAfter, relayTop, hAm]
-      refine ⟨fun d hd => ?_, fun hnone => ?_, ?_, ?_⟩
-      · rw [hs1 hAm] at hd
-        cases hd
-        exact ⟨rfl, hr⟩
-      · rw [hs1 hAm] at hnone; exact absurd hnone (by simp)
+      · rw [hr]; simp
+    | none =>
+      have hny : ∀ d, y ≠ .req A d := fun d h => by
+        have := (hs1 d).mp h; rw [hsrc] at this; simp at this
+      have hr : res = (⟨cs, if env1 A = -1 then env1.set A 1 else env1⟩, .pending y) := by
+        rw [hres]
+        by_cases hneg : env1 A = -1
+        · cases y with
+          | plain v => simp [asendStart, h0, ← hx, relayAfter, relayTop, hneg]
+          | req m' d =>
+            have hm : m' ≠ A := fun h => hny d (by rw [h])
+            simp [asendStart, h0, ← hx, relayAfter, relayTop, hneg, hm]
+        · simp [asendStart, h0, ← hx, relayAfter, relayTop, hneg]
+      refine ⟨fun d hd => by simp at hd, fun _ => hr, ?_, ?_⟩
       · rw [hr]; exact hok'
-      · rw [hr]; exact ⟨hone.consume A hAm 0 (by decide), by simp⟩
+      · rw [hr]
+        by_cases hneg : env1 A = -1
+        · simp [hneg]
+        · cases hA with
+          | inl h => simp [hneg, h]
+          | inr h => exact absurd h hneg
   | ret v =>
-    obtain ⟨hn1, hA1, hs⟩ := hrest
     have hr : res = (⟨cs, env1.set A 0⟩, .returned v) := by
       rw [hres]; simp [asendStart, h0, ← hx, relayAfter]
     refine ⟨fun d hd => ?_, fun _ => hr, ?_, ?_⟩
-    · rw [hs] at hd; exact absurd hd (by simp)
+    · rw [hrest] at hd; exact absurd hd (by simp)
     · rw [hr]; exact hok'
-    · rw [hr]; exact ⟨hn1.set A 0 (by decide), by simp⟩
+    · rw [hr]; simp
   | raise e =>
-    obtain ⟨hn1, hA1, hs⟩ := hrest
     have hr : res = match e with
         | .oobData _ => (⟨cs, env1.set A 0⟩, .raised (.runtime rtRaisedOOB))
         | e => (⟨cs, env1.set A 0⟩, .raised e) := by
       rw [hres]; cases e <;> simp [asendStart, h0, ← hx, relayAfter]
     refine ⟨fun d hd => ?_, fun _ => by rw [hr]; cases e <;> rfl, ?_, ?_⟩
-    · rw [hs] at hd; exact absurd hd (by simp)
+    · rw [hrest] at hd; exact absurd hd (by simp)
     · rw [hr]; cases e <;> exact hok'
-    · rw [hr]; cases e <;> exact ⟨hn1.set A 0 (by decide), by simp⟩
+    · rw [hr]; cases e <;> simp
 
-/-- **nested_monitors**, resumption of a suspended call of `A` by the outer loop with a value or a
-    non-GeneratorExit exception: same classification. -/
+/-- **nested_monitors**, resumption of a suspended call of `A` by the outer loop with a value or an
+    exception other than GeneratorExit (with GeneratorExit the relay *closes* the coroutine: the outcome
+    is never OOBData nor a suspension — `idle_after_close`, `yield_while_closing`). -/
 theorem nested_monitors_resume {c : SBody} {A : MonId} (T : Tag A c) (r : Resume) (hr : Safe r)
-    (cc : CSt c.σ) (env : Env) (hok : okC T cc) (hn : NoNeg env) (h1 : env A = 1) :
+    (cc : CSt c.σ) (env : Env) (hok : okC T cc) (h1 : env A = 1) :
     let x := SCoro.resume c cc r env
     let res := asendResume A r (⟨cc, env⟩ : Sys c)
     (∀ d, coroSrc T cc r env = some d →
-        x.2.1 = .yield d ∧ res = (⟨x.1, x.2.2.set A 0⟩, .raised (.oobData d))) ∧
+        x.2.1 = .yield (.req A d) ∧ res = (⟨x.1, x.2.2.set A 0⟩, .raised (.oobData d))) ∧
     (coroSrc T cc r env = none →
         res = match x.2.1 with
-          | .yield y => (⟨x.1, x.2.2⟩, .pending y)
+          | .yield y => (⟨x.1, if x.2.2 A = -1 then x.2.2.set A 1 else x.2.2⟩, .pending y)
           | .ret v => (⟨x.1, x.2.2.set A 0⟩, .returned v)
           | .raise e => (⟨x.1, x.2.2.set A 0⟩, .raised e)) ∧
     okC T res.1.coro ∧
     (match res.2 with
-      | .pending _ => AtMostOneNeg res.1.env ∧ res.1.env A = 1
-      | _ => NoNeg res.1.env ∧ res.1.env A = 0) := by
+      | .pending _ => res.1.env A = 1
+      | _ => res.1.env A = 0) := by
   intro x res
-  have hp := coro_post T cc r env hok (Or.inl hr) hn h1
+  have hp := coro_post T cc r env hok (Or.inl h1)
   have hres : res = relayAfter A (SCoro.resume c cc r env) := asendResume_relay A r hr ⟨cc, env⟩
   have hx : x = SCoro.resume c cc r env := rfl
   rw [← hx] at hp hres
   obtain ⟨cs, o, env1⟩ := x
   dsimp only at hp
-  obtain ⟨hok', hrest⟩ := hp
+  obtain ⟨hok', hA, hrest⟩ := hp
   cases o with
   | yield y =>
-    obtain ⟨hone, hA, hs1, hs2⟩ := hrest
-    cases hA with
-    | inl hA1 =>
-      have hr' : res = (⟨cs, env1⟩, .pending y) := by
-        rw [hres]; simp [relayAfter, relayTop, hA1]
-      refine ⟨fun d hd => ?_, fun _ => hr', ?_, ?_⟩
-      · rw [hs2 hA1] at hd; exact absurd hd (by simp)
+    obtain ⟨hs1, hs2⟩ := hrest
+    cases hsrc : coroSrc T cc r env with
+    | some d =>
+      have hy : y = .req A d := (hs1 d).mpr hsrc
+      subst hy
+      have hneg : env1 A = -1 := hs2 d rfl
+      have hr' : res = (⟨cs, env1.set A 0⟩, .raised (.oobData d)) := by
+        rw [hres]; simp [relayAfter, relayTop, hneg]
+      refine ⟨fun d' hd' => ?_, fun h => by simp at h, ?_, ?_⟩
+      · cases hd'; exact ⟨rfl, hr'⟩
       · rw [hr']; exact hok'
-      · rw [hr']; exact ⟨hone, hA1⟩
-    | inr hAm =>
-      have hr' : res = (⟨cs, env1.set A 0⟩, .raised (.oobData y)) := by
-        rw [hres]; simp [relayAfter, relayTop, hAm]
-      refine ⟨fun d hd => ?_, fun hnone => ?_, ?_, ?_⟩
-      · rw [hs1 hAm] at hd
-        cases hd
-        exact ⟨rfl, hr'⟩
-      · rw [hs1 hAm] at hnone; exact absurd hnone (by simp)
+      · rw [hr']; simp
+    | none =>
+      have hny : ∀ d, y ≠ .req A d := fun d h => by
+        have := (hs1 d).mp h; rw [hsrc] at this; simp at this
+      have hr' : res = (⟨cs, if env1 A = -1 then env1.set A 1 else env1⟩, .pending y) := by
+        rw [hres]
+        by_cases hneg : env1 A = -1
+        · cases y with
+          | plain v => simp [relayAfter, relayTop, hneg]
+          | req m' d =>
+            have hm : m' ≠ A := fun h => hny d (by rw [h])
+            simp [relayAfter, relayTop, hneg, hm]
+        · simp [relayAfter, relayTop, hneg]
+      refine ⟨fun d hd => by simp at hd, fun _ => hr', ?_, ?_⟩
       · rw [hr']; exact hok'
-      · rw [hr']; exact ⟨hone.consume A hAm 0 (by decide), by simp⟩
+      · rw [hr']
+        by_cases hneg : env1 A = -1
+        · simp [hneg]
+        · cases hA with
+          | inl h => simp [hneg, h]
+          | inr h => exact absurd h hneg
   | ret v =>
-    obtain ⟨hn1, hA1, hs⟩ := hrest
     have hr' : res = (⟨cs, env1.set A 0⟩, .returned v) := by rw [hres]; simp [relayAfter]
     refine ⟨fun d hd => ?_, fun _ => hr', ?_, ?_⟩
-    · rw [hs] at hd; exact absurd hd (by simp)
+    · rw [hrest] at hd; exact absurd hd (by simp)
     · rw [hr']; exact hok'
-    · rw [hr']; exact ⟨hn1.set A 0 (by decide), by simp⟩
+    · rw [hr']; simp
   | raise e =>
-    obtain ⟨hn1, hA1, hs⟩ := hrest
     have hr' : res = (⟨cs, env1.set A 0⟩, .raised e) := by rw [hres]; simp [relayAfter]
     refine ⟨fun d hd => ?_, fun _ => hr', ?_, ?_⟩
-    · rw [hs] at hd; exact absurd hd (by simp)
+    · rw [hrest] at hd; exact absurd hd (by simp)
     · rw [hr']; exact hok'
-    · rw [hr']; exact ⟨hn1.set A 0 (by decide), by simp⟩
+    · rw [hr']; simp
 
 /-- the theorem instantiated for towers of any depth -/
-theorem nested_monitors_tower (A : MonId) (b : MBody) (ps : List PBody) (h : TowerOk ps) (first : Resume)
-    (cc : CSt (tower ps b).σ) (env : Env) (hok : okC (tagTower A b ps h) cc)
-    (hq : Safe first ∨ quietC (tagTower A b ps h) cc) (hn : NoNeg env) (h0 : env A = 0) (d : Val)
-    (hd : coroSrc (tagTower A b ps h) cc first (env.set A 1) = some d) :
-    (asendStart A first (⟨cc, env⟩ : Sys (tower ps b))).2 = .raised (.oobData d) :=
-  by
-    have := (nested_monitors (tagTower A b ps h) first cc env hok hq hn h0).1 d hd
-    rw [this.2]
+theorem nested_monitors_tower (A : MonId) (b : MBody) (ps : List PBody) (first : Resume)
+    (cc : CSt (tower ps b).σ) (env : Env) (hok : okC (tagTower A b ps) cc) (h0 : env A = 0) (d : Val)
+    (hd : coroSrc (tagTower A b ps) cc first (env.set A 1) = some d) :
+    (asendStart A first (⟨cc, env⟩ : Sys (tower ps b))).2 = .raised (.oobData d) := by
+  have := (nested_monitors (tagTower A b ps) first cc env hok h0).1 d hd
+  rw [this.2]
 
 /-! ## non-vacuity -/
 
@@ -553,7 +582,7 @@ def demoActs : List Act :=
 def showOuts (l : List (Option CallOut)) : List CallOut := l.filterMap id
 
 example : showOuts (runTrace (monStep demo 0) (⟨.created demo.init, fun _ => 0⟩, none) demoActs)
-    = [.raised (.oobData 5), .pending 100, .raised (.oobData 6), .returned 15] := by decide
+    = [.raised (.oobData 5), .pending (.plain 100), .raised (.oobData 6), .returned 15] := by decide
 
 example : Coherent (b := demo) 0 (⟨.created demo.init, fun _ => 0⟩, none) := rfl
 
@@ -568,7 +597,7 @@ example :
       (.call (.aawait 7))).1
     d1.1.env 0 = 1 ∧ (callStart 0 (.aawait 3) d1.1).2 = .raised (.runtime rtReenter) := by decide
 
-/-! ### nested monitors: a concrete tower, and the counter-example that makes `Safe` necessary -/
+/-! ### nested monitors: a concrete tower, and the scenario of the repaired defect -/
 
 /-- innermost body, talking to the inner monitor 1 and the outer monitor 0:
     `await M1.oob(11); await M0.oob(22); await tok(100); await M1.oob(12); return 7`;
@@ -588,7 +617,8 @@ def kid : MBody where
     | _, .send _ => .ret 0 9
 
 /-- the parent drives `kid` through monitor 1: `start`, then `aawait` in a loop; child data `d` is passed
-    on to its own driver as `M0.oob(d + 1000)`; after a RuntimeError it really suspends on token 150. -/
+    on to its own driver as `M0.oob(d + 1000)`; after a RuntimeError it really suspends on token 150
+    and then calls `M0.oob(77)`. -/
 def dadLoop : Option Resume → Resume → PStep Nat
   | _, .send v => .ret v 9
   | _, .throw (.oobData d) => .oob 0 (d + 1000) 3 (fun _ => .raise (.runtime rtNotActive) 9)
@@ -605,7 +635,8 @@ def dad : PBody where
         | .send _ => .sub 1 (.aawait 0) 2 dadLoop
         | .throw e => .raise e 9)
     | 3, .send _ => .sub 1 (.aawait 0) 2 dadLoop
-    | 4, .send v => .ret v 9
+    | 4, .send _ => .oob 0 77 5 (fun _ => .raise (.runtime rtNotActive) 9)
+    | 5, .send v => .ret v 9
     | _, .throw e => .raise e 9
     | _, .send _ => .ret 0 9
 
@@ -623,21 +654,71 @@ def duoStep (d : Sys duo × Option Op) (a : Act) : (Sys duo × Option Op) × Opt
 example :
     showOuts (runTrace duoStep (⟨.created duo.init, fun _ => 0⟩, none)
       [.call (.aawait 0), .call (.aawait 5), .resume (.send 0), .call (.aawait 0)])
-    = [.raised (.oobData 22), .pending 100, .raised (.oobData 1012), .returned 7] := by decide
+    = [.raised (.oobData 22), .pending (.plain 100), .raised (.oobData 1012), .returned 7] := by decide
 
-example : TowerOk [dad] := trivial
+example : okC (tagTower 0 kid [dad]) (.created duo.init) := trivial
 
-example : okC (tagTower 0 kid [dad] trivial) (.created duo.init) := trivial
-
-/-- **The full statement is false without `Safe`** (genuine finding, notes/C07.md).  After the kid's
-    `M0.oob(22)` was delivered, the driver throws GeneratorExit in with `athrow` (or `aclose`): the
-    parent is waiting in `M1.aawait(kid)`, so monitor 1's relay *closes* the kid; the kid answers the
-    GeneratorExit with `M0.oob(99)`, which by design is only a RuntimeError for the closer — but
-    monitor 0's cell stays at -1.  The parent handles the RuntimeError and really suspends on token
-    150, and monitor 0 reports that real suspension to its driver as `OOBData 150`. -/
-theorem stale_oob_after_close :
+/-- The scenario of the finding `monitor:stale-oob-after-close`, on the model of the code as repaired:
+    after the kid's `M0.oob(22)` was delivered the driver throws GeneratorExit in; monitor 1's relay
+    closes the kid, whose answer `M0.oob(99)` is swallowed (RuntimeError for the parent, by design); the
+    parent's real suspension on token 150 reaches the driver *as a suspension*, and its next
+    `M0.oob(77)` is served. -/
+theorem no_stale_oob_after_close :
     let s1 := (callStart 0 (.aawait 0) (⟨.created duo.init, fun _ => 0⟩ : Sys duo)).1
-    (callStart 0 (.athrow .genExit) s1).2 = .raised (.oobData 150) ∧
-    (callStart 0 .aclose s1).2 = .raised (.runtime rtMonIgnoredGE) := by decide
+    let r2 := callStart 0 (.athrow .genExit) s1
+    r2.2 = .pending (.plain 150) ∧ r2.1.env 0 = 1 ∧
+    (callResume 0 (.athrow .genExit) (.send 0) r2.1).2 = .raised (.oobData 77) := by decide
+
+end Asynkit.C07
+
+/-! ## the finding, on the model of the relay BEFORE the repair (frozen copy `Asynkit.MonitorOld`) -/
+namespace Asynkit.C07.Old
+open Asynkit.Proto (Val Exc Resume)
+open Asynkit.MonitorOld
+
+def kid : MBody where
+  σ := Nat
+  init := 0
+  resume s r :=
+    match s, r with
+    | 0, .send _ => .oob 1 11 1 (fun _ => .raise (.runtime rtNotActive) 9)
+    | 1, .send _ => .oob 0 22 2 (fun _ => .raise (.runtime rtNotActive) 9)
+    | 2, .throw .genExit => .oob 0 99 5 (fun _ => .raise (.runtime rtNotActive) 9)
+    | 2, .send _ => .yield 100 3
+    | _, .throw e => .raise e 9
+    | _, .send _ => .ret 0 9
+
+def dadLoop : Option Resume → Resume → PStep Nat
+  | _, .send v => .ret v 9
+  | _, .throw (.oobData d) => .oob 0 (d + 1000) 3 (fun _ => .raise (.runtime rtNotActive) 9)
+  | _, .throw (.runtime _) => .yield 150 4
+  | _, .throw e => .raise e 9
+
+def dad : PBody where
+  σ := Nat
+  init := 0
+  resume s r :=
+    match s, r with
+    | 0, .send _ => .sub 1 .start 1 (fun _ res =>
+        match res with
+        | .send _ => .sub 1 (.aawait 0) 2 dadLoop
+        | .throw e => .raise e 9)
+    | _, .throw e => .raise e 9
+    | _, .send _ => .ret 0 9
+
+abbrev duo : SBody := nest dad (ofM kid)
+
+end Asynkit.C07.Old
+
+namespace Asynkit.C07
+open Asynkit.Proto (Val Exc Resume)
+
+/-- **The finding** (`monitor:stale-oob-after-close`, repaired in /repo by e5acd69), `decide`d on the
+    frozen model of the OLD relay: the swallowed `M0.oob(99)` leaves monitor 0's cell at -1, and the
+    parent's real suspension on token 150 is reported to the driver as `OOBData 150`. -/
+theorem stale_oob_after_close :
+    let s1 := (MonitorOld.callStart 0 (.aawait 0) (⟨.created Old.duo.init, fun _ => 0⟩ : MonitorOld.Sys Old.duo)).1
+    (MonitorOld.callStart 0 (.athrow .genExit) s1).2 = .raised (.oobData 150) ∧
+    (MonitorOld.callStart 0 .aclose s1).2 = .raised (.runtime MonitorOld.rtMonIgnoredGE) := by decide
 
 end Asynkit.C07
